@@ -1,7 +1,7 @@
 (* C15_ranges at the level of the channel: whatever the options, files and environment, a
    channel that ares_init_options returns has a positive timeout and try count, at least one
    server and a lookup order; fields the application did not set are 32-bit values. *)
-From CAres.Config Require Import Spec Options_proofs Ranges_proofs.
+From CAres.Config Require Import Spec Options_proofs Ranges_proofs Csv_proofs Inv_proofs.
 From CAres.Gen Require Import Consts.
 Local Open Scope Z_scope.
 
@@ -11,10 +11,11 @@ Lemma opt_timeout_facts m v :
   0 <= snd (opt_timeout m v) < 2 ^ 32 /\ (has (fst (opt_timeout m v)) B_TIMEOUTMS = false -> snd (opt_timeout m v) = 0).
 Proof.
   unfold opt_timeout. destruct (has m B_TIMEOUTMS) eqn:E1.
-  - destruct (v <=? 0); cbn [fst snd]; [split; [lia|reflexivity]|]. split; [apply u32_range|]. congruence.
+  - destruct (v <=? 0); cbn [fst snd]; [split; [lia|reflexivity]|]. split; [apply u32_range|].
+    rewrite has_clrb_neq by (unfold B_TIMEOUT, B_TIMEOUTMS; lia). congruence.
   - destruct (has m B_TIMEOUT) eqn:E2; [|cbn [fst snd]; split; [lia|reflexivity]].
     destruct (0 <? v); cbn [fst snd]; [|split; [lia|reflexivity]].
-    split; [apply u32_range|]. rewrite has_setb_eq by (unfold B_TIMEOUTMS; lia). discriminate.
+    split; [destruct (2147483 <? v); [lia|apply u32_range]|]. rewrite has_setb_eq by (unfold B_TIMEOUTMS; lia). discriminate.
 Qed.
 
 Lemma opt_pos_facts m b v : 0 <= snd (opt_pos m b v 0) /\ (has (fst (opt_pos m b v 0)) b = false -> snd (opt_pos m b v 0) = 0).
@@ -32,19 +33,38 @@ Qed.
 Lemma servers_update_single flags u t s : servers_update flags u t [] [s] <> [].
 Proof. unfold servers_update. cbn [dedup_sconf existsb map]. destruct (Z.testbit flags 1); discriminate. Qed.
 
+Lemma servers_update_nonempty flags u t old l : l <> [] -> servers_update flags u t old l <> [].
+Proof.
+  destruct l as [|s r]; [congruence|]. intros _. unfold servers_update. cbn [dedup_sconf existsb map].
+  destruct (Z.testbit flags 1); discriminate.
+Qed.
+
 Section WithNet.
 Variable nf : netfns.
+
+(* ares_reinit never leaves a channel that had servers without any: the entry list gathered from
+   the system is either absent (nothing applied) or non-empty *)
+Theorem reinit_keeps_servers e c c' : reinit nf e c = Ok c' -> c_servers c <> [] -> c_servers c' <> [].
+Proof.
+  unfold reinit, init_by_sysconfig.
+  destruct (read_sysconfig nf (c_ifs c) e) as [s|st|k] eqn:Er; try discriminate.
+  - intros H Hne. apply Ok_inj in H. subst c'. unfold sysconfig_apply, sysconfig_apply_gen. cbn [c_servers].
+    pose proof (read_sysconfig_nonempty nf _ _ _ Er) as Hs.
+    destruct (s_sconfig s) as [l|]; [|exact Hne]. destruct (has (c_optmask c) B_SERVERS); [exact Hne|].
+    apply servers_update_nonempty. intros E. subst l. congruence.
+  - destruct (st =? NotModelled); [discriminate|]. intros H Hne. apply Ok_inj in H. subst c'. exact Hne.
+Qed.
 
 Theorem init_options_ranges e o m c :
   init_options nf e o m = Ok c ->
   0 < c_timeout c /\ 0 < c_tries c /\ c_servers c <> [] /\ c_lookups c <> None /\
-  (has (c_optmask c) B_NDOTS = false -> 0 <= c_ndots c < 2 ^ 32) /\
+  (has (c_optmask c) B_NDOTS = false -> 0 <= c_ndots c <= 15) /\
   (has (c_optmask c) B_TIMEOUTMS = false -> c_timeout c < 2 ^ 32) /\
   (has (c_optmask c) B_TRIES = false -> c_tries c < 2 ^ 32).
 Proof.
   unfold init_options. intros H.
   destruct (init_by_options o m) as [c0| |] eqn:E0; simpl in H; try discriminate.
-  destruct (init_by_sysconfig nf e c0) as [c1| |] eqn:E1; simpl in H; try discriminate.
+  destruct (init_by_sysconfig nf e (chan_set_ifs c0 (e_defifs e))) as [c1| |] eqn:E1; simpl in H; try discriminate.
   destruct (init_by_defaults e c1) as [c2| |] eqn:E2; simpl in H; try discriminate.
   apply Ok_inj in H. subst c.
   cbn [c_timeout c_tries c_servers c_lookups c_ndots c_optmask].
@@ -68,11 +88,12 @@ Proof.
   assert (c_optmask c1 = c_optmask c0 /\
           0 <= c_timeout c1 /\ (has (c_optmask c0) B_TIMEOUTMS = false -> c_timeout c1 < 2 ^ 32) /\
           0 <= c_tries c1 /\ (has (c_optmask c0) B_TRIES = false -> c_tries c1 < 2 ^ 32) /\
-          (has (c_optmask c0) B_NDOTS = false -> 0 <= c_ndots c1 < 2 ^ 32)) as S1.
+          (has (c_optmask c0) B_NDOTS = false -> 0 <= c_ndots c1 <= 15)) as S1.
   { unfold init_by_sysconfig in E1.
-    destruct (read_sysconfig nf (c_ifs c0) e) as [s|st|k] eqn:Er; try discriminate.
+    destruct (read_sysconfig nf (c_ifs (chan_set_ifs c0 (e_defifs e))) e) as [s|st|k] eqn:Er; try discriminate.
     - apply Ok_inj in E1. subst c1. destruct (read_sysconfig_range nf _ _ _ Er) as (A & B0 & C).
-      unfold sysconfig_apply, sysconfig_apply_gen. cbn [c_optmask c_timeout c_tries c_ndots].
+      unfold sysconfig_apply, sysconfig_apply_gen. cbn [chan_set_ifs c_optmask c_timeout c_tries c_ndots].
+      change (10 ^ 9) with 1000000000 in *. change (2 ^ 32) with 4294967296 in *.
       split; [reflexivity|].
       split.
       { destruct (negb (s_timeout_ms s =? 0) && negb (has (c_optmask c0) B_TIMEOUTMS)); lia. }
@@ -85,7 +106,7 @@ Proof.
       { intros Hb. rewrite Hb. cbn [negb]. rewrite andb_true_r.
         destruct (s_tries s =? 0); cbn [negb]; [rewrite (R2 Hb)|]; lia. }
       intros Hb. rewrite Hb. lia.
-    - destruct (st =? NotModelled); [discriminate|]. apply Ok_inj in E1. subst c1.
+    - destruct (st =? NotModelled); [discriminate|]. apply Ok_inj in E1. subst c1. cbn [chan_set_ifs c_optmask c_timeout c_tries c_ndots].
       split; [reflexivity|]. split; [lia|]. split; [intros Hb; rewrite (T2 Hb); lia|]. split; [lia|].
       split; [intros Hb; rewrite (R2 Hb); lia|]. intros Hb; rewrite (N2 Hb); lia. }
   destruct S1 as (M1 & T3 & T4 & R3 & R4 & N3).
